@@ -53,6 +53,9 @@ class Contract:
         self.pure_calls = list(kw.pop("pure_calls", []))   # method names assumed pure & provider-free (lenient only)
         self.call_requires = dict(kw.pop("call_requires", {}))  # callee qual -> [exprs] extra call-site obligations
         self.call_models = dict(kw.pop("call_models", {}))  # "self.f" -> spec expression for the value of self.f(...)
+        # completeness of a generator: {"var": name, "type": T, "when": [clauses over params and var], "hints": {site: expr}}
+        # -- every value `var` of type T satisfying `when` is yielded.  Proved with a ghost flag `found`.
+        self.complete = kw.pop("complete", None)
         self.yield_seq = kw.pop("yield_seq", False)       # generator whose contract speaks about the whole yield sequence
         self.variants = list(kw.pop("variants", []))      # [{name, params, requires, ensures, raises, ...}] type cases
         self.source = kw.pop("source", qual)              # qualified name of the def in `file` (inherited methods)
@@ -75,6 +78,7 @@ class Registry:
         self.axioms = []
         self.named_tuples = {}
         self.opaque_methods = {}
+        self.opaque_raises = {}
         self.opaque_attrs = {}
 
     def klass(self, file, name, fields=None, bases=(), invariant=(), properties=(), ghost_fields=None,
@@ -116,9 +120,12 @@ class Registry:
         d.variant_name = v["name"]
         return d
 
-    def opaque_method(self, tname, method, returns, args=()):
-        """A pure, deterministic method of an opaque (user) type: an uninterpreted function of receiver and args (A2)."""
+    def opaque_method(self, tname, method, returns, args=(), may_raise=None):
+        """A pure, deterministic method of an opaque (user) type: an uninterpreted function of receiver and args (A2).
+        may_raise: user code may also fail (interrupt, time-out, bug): every call forks an exceptional path raising it."""
         self.opaque_methods[(tname, method)] = (list(args), returns)
+        if may_raise:
+            self.opaque_raises[(tname, method)] = may_raise
 
     def opaque_attr(self, tname, attr, t):
         self.opaque_attrs[(tname, attr)] = t
